@@ -138,6 +138,19 @@ type Engine struct {
 	prof        map[*ssa.Function]int
 	onceDone    map[string]bool
 	locks       map[string]int
+	wg          map[string]int
+	// threads (threads.go)
+	threads     []*thread
+	cur         *thread
+	syncVC      map[string]vclock
+	access      map[*Obj][]accessRec
+	mapAccess   map[*MapObj][]accessRec
+	preemptLeft int
+	noSched     int
+	noRace      int
+	aborting    bool
+	abortVal    any
+	mtEver      bool
 	ctxT, logT  types.Type
 	errorIface  *types.Interface
 	ctxIfaceT   types.Type
@@ -509,6 +522,9 @@ func (e *Engine) resetPath() {
 	e.clock = 0
 	e.onceDone = nil
 	e.locks = nil
+	e.wg = nil
+	e.threads, e.cur, e.syncVC, e.access, e.mapAccess = nil, nil, nil, nil, nil
+	e.preemptLeft, e.noSched, e.noRace, e.aborting, e.abortVal, e.mtEver = 0, 0, 0, false, nil, false
 	if profiling && e.prof == nil {
 		e.prof = map[*ssa.Function]int{}
 	}
@@ -542,6 +558,10 @@ func (e *Engine) runPath(it workItem) {
 					outcome, detail = "bound", r.msg
 				case blockedPath:
 					outcome, detail = "blocked", r.msg
+				case deadlockPath:
+					outcome, detail = "deadlock", r.msg
+				case racePath:
+					outcome, detail = "race", r.msg
 				case inconclusive:
 					outcome, detail = "inconclusive", r.msg
 				case engineBug:
@@ -553,7 +573,32 @@ func (e *Engine) runPath(it workItem) {
 		}()
 		e.call(res.fn, nil, nil)
 	}()
+	if e.threads != nil {
+		e.aborting = true
+		e.killThreads()
+	}
 	var pv *Violation
+	if outcome == "deadlock" || outcome == "race" {
+		label := map[string]string{"deadlock": "no-deadlock", "race": "no-data-race"}[outcome]
+		if e.concrete {
+			e.obs = append(e.obs, "ASSERT-FAIL:"+label)
+		} else {
+			r := e.sol.check()
+			if r == "unsat" {
+				outcome, detail = "engine-error", outcome+" on infeasible path: "+detail
+			} else {
+				v := Violation{Label: label, Kind: outcome, Path: append([]Dec{}, e.taken...), Status: r, Msg: detail, Stack: e.stackStr()}
+				if r == "sat" {
+					v.Model = e.model()
+				}
+				pv = &v
+				e.asserts++
+				l := e.labels[label]
+				l[0]++
+				e.labels[label] = l
+			}
+		}
+	}
 	if outcome == "panic" {
 		if e.concrete {
 			e.obs = append(e.obs, "PANIC")
@@ -568,6 +613,16 @@ func (e *Engine) runPath(it workItem) {
 				}
 				pv = &v
 			}
+		}
+	}
+	if e.mtEver && !e.concrete && outcome == "done" {
+		for _, label := range []string{"no-deadlock", "no-data-race"} {
+			e.asserts++
+			e.discharged++
+			l := e.labels[label]
+			l[0]++
+			l[1]++
+			e.labels[label] = l
 		}
 	}
 	var sampleModel map[string]uint64
@@ -636,7 +691,7 @@ func (e *Engine) runPath(it workItem) {
 		l[1] += v[1]
 		res.Labels[k] = l
 	}
-	if outcome == "done" || outcome == "panic" || outcome == "pruned" {
+	if outcome == "done" || outcome == "panic" || outcome == "pruned" || outcome == "deadlock" || outcome == "race" {
 		for k, v := range e.covers {
 			res.Covers[k] += v
 		}
